@@ -1,6 +1,7 @@
 import Cirbo.Proofs.EvalCor
 import Cirbo.Model.Checkers
 import Cirbo.Proofs.EvalProj
+import Cirbo.Proofs.GatesTT
 import Cirbo.Proofs.TseytinTemplates
 import Cirbo.Proofs.Convert
 import Cirbo.Proofs.GenSum
@@ -19,12 +20,13 @@ import Cirbo.Generated.SynthTables
 -- OBLIGATION: c01_evaluate
 -- OBLIGATION: c01_evaluate_at
 -- OBLIGATION: c01_truth_table
+-- OBLIGATION: c01_gates_truth_table
 -- OBLIGATION: c01_cnf_templates_denote_bfun
 -- OBLIGATION: c01_arithmetic_gate_codes_denote_bfun
 -- OBLIGATION: c01_synthesis_codes_denote_bfun
 -- OBLIGATION: c01_pattern_simulation_denotes_bfun
 -- OBLIGATION: c01_bench_conversion_denotes_bfun
--- PARTIAL: evaluate, evaluate_at and get_truth_table are proved to be the stated projections of the denotation (whenever they return); get_gates_truth_table is modelled and validated by correspondence, its projection lemma is not proved yet. evaluate_circuit (and the entry points built on it): partial correctness (termination within fuel by correspondence). The other gate-interpreting modules are tied to the same bfun by the five theorems below (CNF templates at every arity, the two regenerated truth-table code tables, pattern simulation bit by bit, every bench conversion step).
+-- PARTIAL: evaluate, evaluate_at, get_truth_table and get_gates_truth_table are proved to be the stated projections of the denotation (whenever they return). evaluate_circuit (and the entry points built on it): partial correctness (termination within fuel by correspondence). The other gate-interpreting modules are tied to the same bfun by the five theorems below (CNF templates at every arity, the two regenerated truth-table code tables, pattern simulation bit by bit, every bench conversion step).
 -/
 namespace Cirbo
 open GateType V3
@@ -146,6 +148,14 @@ theorem c01_truth_table {c : Circuit} (h : WF c) (V : List V3 → Label → V3)
     tt = transpose c.outputs.length ((allInputs c.inputs.length).map
       (fun bs => c.outputs.map (V (bs.map V3.ofBool)))) := truthTable_spec h V hV ht
 
+/-- `get_gates_truth_table()`: the row of every gate = its denotation over all input vectors in counting order -/
+theorem c01_gates_truth_table {c : Circuit} (h : WFU c) {gtt : Dict (List V3)} (hg : gatesTruthTable c = .ok gtt)
+    (B V : List Bool → Label → Bool)
+    (hB : ∀ bs ∈ allInputs c.inputs.length, c.inputs.map (B bs) = bs ∧ IsValB c (B bs) (V bs))
+    {l : Label} (hl : l ∈ c.labels) :
+    (gtt.get? l).getD [] = (allInputs c.inputs.length).map (fun bs => V3.ofBool (V bs l)) :=
+  gatesTruthTable_spec h hg B V hB hl
+
 /-! ### every other part of the library that interprets a gate type denotes the same `bfun` -/
 
 /-- CNF templates (Tseytin), every type at every accepted arity -/
@@ -187,6 +197,7 @@ theorem c01_bench_conversion_denotes_bfun {c c1 : Circuit} (hnl : NL c) {g : Gat
 #print axioms c01_evaluate
 #print axioms c01_evaluate_at
 #print axioms c01_truth_table
+#print axioms c01_gates_truth_table
 #print axioms c01_cnf_templates_denote_bfun
 #print axioms c01_arithmetic_gate_codes_denote_bfun
 #print axioms c01_synthesis_codes_denote_bfun
